@@ -8,8 +8,10 @@ from . import c10
 EXPLANATION = (
     "Decided statically: (R1) the root secret sampled in GGMPuncturableKey::new and the secrets sampled in "
     "GGMPseudorandomGenerator::setup are not contained in the clear in the returned key - they enter it only as "
-    "inputs of the Strobe PRG; (R2, must-pass-through) every Ok of GGMPuncturableKey::puncture is dominated by the "
-    "removal (Vec::remove) of the element of `prefixes` located by the lookup on the covering prefix - a "
+    "inputs of the Strobe PRG; (R2, must-pass-through) on the final key state of GGM::puncture narrowed to its Ok "
+    "alternative, `prefixes` is the initial set with the covering node removed (Vec::remove at the position the prefix "
+    "lookup returned or at the position of the element whose bits equal the found prefix, whichever function performs "
+    "it) and afterwards only extended - a "
     "black-list-only implementation that keeps ancestor seeds fails this for every history, and every Ok of "
     "Server::puncture is the Ok of that key-level puncture applied to the given tag; (R3) in GGM::puncture "
     "the covering seed reaches the elements added to `prefixes` only through the output of the bitwise PRG descent "
@@ -26,31 +28,117 @@ KEY = "ppoprf::ggm::GGMPuncturableKey"
 KPUNC = "ppoprf::ggm::GGMPuncturableKey::puncture"
 
 
+class _Outer:
+    """a caller that does not exist: lets the engine narrow the root's final state to one alternative of its result"""
+    key = "<outer>"
+
+
+def _alternatives(v, depth=0):
+    """the values a (non-loop) join stands for"""
+    if Q.is_t(v) and v.op == "phi" and depth < 8 and not Q.is_loop_acc(v):
+        out = []
+        for x in (PHI.get(v.args[0]) or {}).values():
+            out += _alternatives(x, depth + 1)
+        return list({x.id: x for x in out}.values())
+    return [v]
+
+
 def covering_removed(ctx, rule, cfg="A"):
-    eng, ret, st, fr = ctx.root(KPUNC, cfg)
-    at = ctx.fn(KPUNC, cfg).loc
+    """on every path on which the public GGM puncture reports success, the retained node set it leaves behind is the
+    initial set with the covering node REMOVED (then possibly extended by the co-path): decided on the final state of
+    `self.key.prefixes` narrowed to the Ok alternative, whichever function performs the removal"""
+    from ..sym import field as sym_field
+    root = c10.PUNC
+    eng, ret, st, fr = ctx.root(root, cfg)
+    at = ctx.fn(root, cfg).loc
+    ik = fidx(ctx, c10.GGM, "key", cfg)
     ipf = fidx(ctx, KEY, "prefixes", cfg)
+    want = "self.%d.%d" % (ik, ipf)
     okv = Q.variant(ret, 0)
-    rem = [e for e in Q.calls(eng, "Vec::<T, A>::remove", in_fn=KPUNC)
-           if Q.path_of(e["argv"][0]) == "self.%d" % ipf]
-    if not rem or okv is None:
-        ctx.add(rule, KPUNC + "#removes-covering-node", False,
-                "GGMPuncturableKey::puncture has no removal from `prefixes` (found %d) or no Ok" % len(rem), at)
+    selfv = None
+    if okv is not None and st is not None:
+        st_ok = eng.refine_state(_Outer, st, ret, {0})
+        selfv = st_ok.get(("param", "self"))
+    if selfv is None:
+        ctx.add(rule, root + "#removes-covering-node", False, "GGM::puncture has no Ok alternative or no final key state", at)
         return
-    cfg_ = fr.cfg
-    ok_blocks = [Q.origin_block(b) for (fk, b) in okv[4] if fk == fr.key]
-    dom = bool(ok_blocks) and all(any(cfg_.dominates(r["home_block"], b) for r in rem) for b in ok_blocks)
-    ctx.add(rule, KPUNC + "#removes-covering-node", dom,
-            "every successful puncture must pass through the removal of the covering node from `prefixes`; the removal at %s "
-            "does not dominate the Ok at bb%s" % ([r["at"] for r in rem], ok_blocks), rem[0]["at"],
-            sample={"remove_at": [r["at"] for r in rem]})
-    # the removed index is the position of the element whose bits equal the covering prefix's bits
-    idx = rem[0]["argv"][1]
-    okidx = idx.op == "iter_position" and Q.path_of(idx.args[0].args[0] if idx.args[0].op == "iter" else idx.args[0]) == "self.%d" % ipf \
-        and idx.args[1].op == "eq" and ({"pfx.0"} <= Q.params(Q.leaves(idx.args[1])) or {"pfx"} <= Q.params(Q.leaves(idx.args[1])))
-    ctx.add(rule, KPUNC + "#removed-is-covering-prefix", okidx,
-            "the removed element must be the one whose bits equal the covering prefix; index term %s" % S(idx, 5), rem[0]["at"],
-            sample=S(idx, 5))
+    def expand(t, depth=0):
+        """the values t may stand for, with field projections pushed through (non-loop) joins"""
+        if not Q.is_t(t) or depth > 8:
+            return [t]
+        if t.op == "phi":
+            al = _alternatives(t)
+            if len(al) == 1 and al[0] is t:
+                return [t]
+            out = []
+            for x in al:
+                out += expand(x, depth + 1)
+            return list({x.id: x for x in out}.values())
+        if t.op == "field":
+            inner = expand(t.args[0], depth + 1)
+            if len(inner) == 1 and inner[0] is t.args[0]:
+                return [t]
+            out = []
+            for x in inner:
+                out += expand(sym_field(x, t.args[1]), depth + 1)
+            return list({x.id: x for x in out}.values())
+        return [t]
+
+    def project(v, n):
+        out = []
+        for a in expand(v):
+            out += expand(sym_field(a, n))
+        return list({x.id: x for x in out}.values())
+    finals = []
+    for k_ in project(selfv, ik):
+        finals += project(k_, ipf)
+    finals = list({x.id: x for x in finals}.values())
+    removals, kept = [], []
+    for f in finals:
+        t, n = f, 0
+        while Q.is_t(t) and t.op in ("append", "push", "inserted") and n < 8:
+            t = t.args[0]
+            n += 1
+            if t.op == "phi" and not Q.is_loop_acc(t):
+                break
+        if Q.is_t(t) and t.op == "removed" and Q.path_of(t.args[0]) == want:
+            removals.append(t)
+        else:
+            kept.append(S(f, 4))
+    rm_at = [e["at"] for e in Q.calls(eng, "Vec::<T, A>::remove")]
+    ctx.add(rule, root + "#removes-covering-node", bool(removals) and not kept,
+            "every successful puncture must leave `prefixes` with the covering node removed; final values on success "
+            "without a removal from the initial set: %s" % kept, rm_at[0] if rm_at else at,
+            sample={"remove_at": rm_at, "final_prefixes_on_ok": [S(f, 4) for f in finals]})
+    if not removals:
+        return
+    # the removed position is that of the covering node: the position the lookup itself returned, or the position of the
+    # element whose bits equal the bits of the node the lookup returned
+    fp = Q.calls(eng, "GGMPuncturableKey::find_prefix")
+    okp = Q.variant(fp[0]["result"], 0) if len(fp) == 1 else None
+    P = okp[2][0] if okp and okp[2] else None
+    okidx = P is not None
+    shown = []
+    for r in removals:
+        idx = c10._strip(r.args[1])
+        shown.append(S(idx, 5))
+        if P is None:
+            break
+        if idx is c10._strip(P) and idx.op == "iter_position":
+            continue
+        node = c10.covering_node(P)
+        bits = sym_field(sym_field(node, 0), 0)
+        src = idx.args[0] if idx.op == "iter_position" else None
+        while src is not None and src.op in ("iter", "cloned_iter", "refv") and src.args:
+            src = src.args[0]
+        pred = idx.args[1] if idx.op == "iter_position" else None
+        if not (src is not None and Q.path_of(src) == want and pred is not None and pred.op == "eq" and
+                any(c10._strip(x) is bits for x in pred.args) and
+                any(Q.contains(x, lambda z: z.op == "elem") and c10._strip(x) is not bits for x in pred.args)):
+            okidx = False
+    ctx.add(rule, root + "#removed-is-covering-prefix", okidx,
+            "the removed element must be the covering node (the position the prefix lookup returned, or the position of the "
+            "element whose bits equal the found prefix); index term(s) %s" % shown, rm_at[0] if rm_at else at, sample=shown)
 
 
 def server_puncture_passes_through(ctx, rule):
